@@ -30,11 +30,11 @@ CLAIMED = {
             'Trusted: clang AST; container invariants assumed at entry and re-proved at exit; distinct parameters do not alias; LP64. UNDECIDED obligations are counted in the evidence and never alarm.',
             'DESIGN.md 2/E1, 3/C14, Appendix C'),
     'C07': ('mlrcheck+matexpr+accum', 'other', 'cell-form extraction with symbolic loop indices (design matrix, predictor, residuals, R2/SDEC sums) unified with their definitions; call-sequence algebra over symbolic matrices for the solver; zeroed-output typestate for the accumulating product kernels',
-            'Decides in exact arithmetic: MLR builds the design matrix [1 | X]; for every response column the coefficient vector is OrdinaryLeastSquares(design, y_j) = (D\'D)^-1 D\'y_j, appended as column j (row 0 = intercept); hence the normal equations hold -- training residuals sum to zero and are orthogonal to every predictor, noise-free linear data are recovered, and the fit is equivariant to shifts/scalings of a response and to invertible re-mixing of the predictors; MLRPredictY computes intercept + X b for any matrix, residual = predicted - observed, R2 = 1 - RSS/TSS about the column mean of the observed response and SDEC = sqrt(RSS/n). NOT decided: the numerical accuracy of the Gauss-Jordan inverse on ill-conditioned X (condition numbers up to 1e4 are in the quantifier), R2 in [0,1] as a floating-point statement.',
+            'Decides in exact arithmetic: MLR builds the design matrix [1 | X]; for every response column the coefficient vector is OrdinaryLeastSquares(design, y_j) = (D\'D)^-1 D\'y_j, appended as column j (row 0 = intercept); hence the normal equations hold -- training residuals sum to zero and are orthogonal to every predictor, noise-free linear data are recovered, and the fit is equivariant to shifts/scalings of a response and to invertible re-mixing of the predictors; MLRPredictY computes intercept + X b for any matrix, residual = predicted - observed, R2 = 1 - RSS/TSS about the column mean of the observed response, with RSS and TSS accumulated term by term in the centred form (no one-pass cancellation), and SDEC = sqrt(RSS/n). NOT decided: the numerical accuracy of the Gauss-Jordan inverse on ill-conditioned X (condition numbers up to 1e4 are in the quantifier), R2 in [0,1] as a floating-point statement.',
             'Trusted: clang AST; real arithmetic; X of full column rank (the property\'s premise) so that the inverse exists. Unrecognised loop shapes are ANALYSIS-BROKEN.',
             'DESIGN.md 3/C07 (revised in 10.7), 10.6 (E16, E17, E15)'),
     'C17': ('kmeanscheck+slices', 'other', 'cell-form extraction with symbolic indices for the distance and the scatter-mean update, structural recognition of the running-minimum idiom, and the partition / ownership / accumulator rules of the slicing engine on the clustering dispatchers',
-            'Decides the k-means clauses only, in exact arithmetic: every object is labelled with the index (in range) of the first centroid at minimal Euclidean distance; every returned centroid is the mean of the objects carrying its label (empty clusters re-seeded from a data row); labels do not depend on the thread count (rows partitioned exactly once among the workers for every rows/threads pair of the bound, workers own their rows and carry no accumulator across rows). NOT decided: convergence within the documented tolerance; every clause about the selection methods (MDC, both max-min implementations, k-means++): number and distinctness of the returned indices, farthest-first optimality, equality of the two max-min implementations.',
+            'Decides the k-means clauses only, in exact arithmetic: every object is labelled with the index (in range) of the first centroid at minimal Euclidean distance; every returned centroid is the mean of the objects carrying its label (empty clusters re-seeded from a data row); labels do not depend on the thread count (rows partitioned exactly once among the workers for every rows/threads pair of the bound, workers own their rows and carry no accumulator across rows); the iteration stops only when every coordinate of every centroid equals the previous one within the documented absolute EPSILON (first mismatch means not converged). NOT decided: that the capped iteration reaches that state; every clause about the selection methods (MDC, both max-min implementations, k-means++): number and distinctness of the returned indices, farthest-first optimality, equality of the two max-min implementations.',
             'Trusted: clang AST; real arithmetic; thread counts >= 1; no aliasing. Unrecognised loop shapes are ANALYSIS-BROKEN.',
             'DESIGN.md 3/C17 (revised in 10.7)'),
     'C19': ('dims+spline+simplex', 'other', 'units-of-measure inference (dimensions X^a Y^b, linear system over Q) plus statement-level computer algebra: array stores read as rational functions of symbolic cells with a symbolic index, recognition of the Thomas elimination / back-substitution recurrences, polynomial normalisation of the spline conditions; pairing typestate over the Nelder-Mead table; nothing is executed, no loop unrolled',
